@@ -477,12 +477,19 @@ func c09Ownership(a *ChildArgs, workers int) {
 					_, _ = gosqlx.Format(sql, gosqlx.DefaultFormatOptions())
 				case "parse-with-comments-format":
 					t2, _ := tokenizer.New()
-					if toks, err := t2.Tokenize([]byte("-- c\n" + sql + " -- d")); err == nil {
+					if toks, err := t2.Tokenize([]byte("SELECT 1, -- inline first\n-- own line second\n 2 /* tail */;\n-- c\n" + sql + " -- d\n/* e */")); err == nil {
 						_ = toks
 						cs := append([]models.Comment(nil), t2.Comments...)
 						if t, err := gosqlx.Parse(sql); err == nil {
 							t.Comments = cs
+							before := dump.Dump(cs)
 							_ = t.Format(ast.ReadableStyle())
+							_ = t.Format(ast.CompactStyle())
+							_ = t.SQL()
+							if after := dump.Dump(t.Comments); after != before {
+								a.Rec.Viol("C09/own/comments/changed-by-format", "values handed to the caller are never modified by later library activity",
+									"formatting a tree reordered or rewrote the comments attached to it", map[string]interface{}{"history": hist, "before": trunc(before, 300), "after": trunc(after, 300)})
+							}
 							ast.ReleaseAST(t)
 						}
 					}
